@@ -129,16 +129,16 @@ def C12(tier):
 
 # --------------------------------------------------------------------------- array codecs
 ARRAY_CODECS = ["delta.signed", "delta.unsigned", "for", "for.preanalysed", "for.nullmeta", "for.batch", "for.batchenc-scalardec",
-                "pfor.90", "pfor.95", "pfor.99", "group", "dict", "dict.into", "dict.withdict", "rle", "rle.maxsize",
+                "pfor.90", "pfor.95", "pfor.99", "group", "group.putget", "dict", "dict.into", "dict.withdict", "rle", "rle.maxsize",
                 "rle.header", "elias.gamma", "elias.delta", "bp128.32", "bp128.64", "bp128.delta32", "bp128.delta64"]
 ADAPTIVE_CODECS = ["adaptive.auto", "adaptive.DELTA", "adaptive.FOR", "adaptive.PFOR", "adaptive.DICT", "adaptive.BITMAP", "adaptive.TAGGED"]
 
 
 def C02(tier):
     c = Check("C02", tier)
-    n = sz(tier, 23 * 40_000, 23 * 1_000_000)
+    n = sz(tier, 24 * 40_000, 24 * 1_000_000)
     count = per_shard(n)
-    p = [4097, sz(tier, 4000, 4000)]
+    p = [4097, sz(tier, 1500, 1500)]
     runs = [c.spec("array-rel", "rel", "drv_array", "c02", count, params=p)]
     if HAVE_NATIVE:
         runs.append(c.spec("array-native", "native", "drv_array", "c02", count, params=p))
@@ -177,7 +177,7 @@ def C03(tier):
         c.require("codec." + name, c.stat("codec." + name), 500)
     # the bound must actually be approached: per sizing function, max written/advertised >= 0.9
     groups = {"varintDeltaMaxEncodedSize": ["delta.signed", "delta.unsigned"], "varintFORSize": ["for", "for.batch"],
-              "varintPFORSize": ["pfor.90", "pfor.95", "pfor.99"], "varintGroupSize": ["group"],
+              "varintPFORSize": ["pfor.90", "pfor.95", "pfor.99"], "varintGroupSize": ["group", "group.putget"],
               "varintDictEncodedSize": ["dict", "dict.withdict"], "varintRLESize": ["rle"],
               "varintRLEMaxSize": ["rle.maxsize", "rle.header"], "varintEliasGammaMaxBytes": ["elias.gamma"],
               "varintEliasDeltaMaxBytes": ["elias.delta"],
